@@ -95,3 +95,25 @@ def close(lib_value, exact, rel=Fraction(1, 10 ** 12)):
     except (ValueError, OverflowError, TypeError):
         return False
     return abs(lv - exact) <= rel * abs(exact)
+
+
+DBL_MAX = Fraction(2 ** 1024 - 2 ** 970)
+DBL_TRUE_MIN = Fraction(1, 2 ** 1074)
+
+
+def gen_product_for_gradient(rng, names=("x", "y", "z", "w", "v")):
+    """(spec, point, vars): a flat product of 2-5 distinct variables at huge / tiny coordinates such that the node value
+    is inside the double range (possibly subnormal) and the listed variables' exact partials are in the normal range."""
+    mags = MAGS + [1e-160, 1e-155, 1e155, 1e-310 ** 0.5, 3e-162, 1e-108]
+    for _ in range(300):
+        n = rng.randint(2, 5)
+        vs = list(names[:n])
+        p = {v: (rng.choice(mags) * (1 if rng.random() < 0.7 else -1)) for v in vs}
+        t = ("Multiply",) + tuple(("Variable", v) for v in vs)
+        val = exact_value(t, p)
+        if val == 0 or not (DBL_TRUE_MIN <= abs(val) <= DBL_MAX):
+            continue
+        good = [v for v in vs if in_range(exact_partial(t, p, v)) and exact_partial(t, p, v) != 0]
+        if good:
+            return t, p, good
+    return None, None, None
